@@ -15,7 +15,7 @@ LEVEL = 'exploration'
 PROP = 'C15'
 TSS = [svc.IMPLICIT, svc.EXPLICIT, svc.BIG]
 SOPS = [svc.SC_STORAGE, svc.CT_STORAGE, '1.2.840.10008.5.1.4.1.1.88.11']
-MAXES = [128, 1024, 4096, 16384, 65536]
+MAXES = [128, 1024, 4096, 16384, 65536, 262144]
 CASE_LIMIT = 60.0
 
 text = st.text('ABCDEFGHIJKLMNOPQRSTUVWXYZabcdefghij0123456789 ^', min_size=0, max_size=24).map(lambda s: s.strip())
@@ -232,6 +232,15 @@ FIXED = [
     {'ds': {'SOPClassUID': svc.SC_STORAGE, 'SOPInstanceUID': '1.2.826.0.1.3680043.9.15.3', 'StudyDescription': 'x'},
      'ts': 1, 'client_max': 1024, 'server_max': 4096, 'source': 'file', 'reception': 'memory-file',
      'outcome': ['status', 0xB000], 'repeat': 2, 'align': 0},
+    # PDUs far larger than what one TCP read delivers on loopback
+    {'ds': {'SOPClassUID': svc.CT_STORAGE, 'SOPInstanceUID': '1.2.826.0.1.3680043.9.15.4', 'PatientName': 'Big^Pdu',
+            'EncapsulatedDocument': {'len': 1500001, 'salt': 5}},
+     'ts': 1, 'client_max': 1048576, 'server_max': 1048576, 'source': 'memory', 'reception': 'tempfile',
+     'outcome': ['status', 0], 'repeat': 1, 'align': None},
+    {'ds': {'SOPClassUID': svc.SC_STORAGE, 'SOPInstanceUID': '1.2.826.0.1.3680043.9.15.5',
+            'EncapsulatedDocument': {'len': 900000, 'salt': 6}},
+     'ts': 0, 'client_max': 262144, 'server_max': 4194304, 'source': 'file', 'reception': 'directory',
+     'outcome': ['status', 0xB000], 'repeat': 1, 'align': None},
 ]
 
 
@@ -278,10 +287,10 @@ def run(ctx):
     warnings.simplefilter('ignore')
     ctx.rule = ('Hypothesis-generated data sets (PN/LO/UI/US/OB/OW elements incl. odd lengths, nested sequences to depth '
                 '3, bulk data up to ~30 fragments) x 3 transfer syntaxes (each proposed alone) x asymmetric pairs of '
-                'maximum PDU lengths from {128..65536} x Dataset-in-memory or Part-10 file source x temp-file / '
+                'maximum PDU lengths from {128..262144} (fixed cases up to 4 MiB with MB-sized data sets) x Dataset-in-memory or Part-10 file source x temp-file / '
                 'in-memory-file / directory reception x handler statuses success/warning/failure/EventHandlingError x '
                 '1-3 stores of the same instance UID with different content; whole stack over real loopback TCP with '
-                'real threads; plus 3 fixed cases; non-trivial = >=2 data fragments or a repeated UID')
+                'real threads; plus 5 fixed cases; non-trivial = >=2 data fragments or a repeated UID')
     ctx.assumptions = ['schedules are whatever the OS produces (sampled, not enumerated); a library time-out or a case '
                        'exceeding %d s is inconclusive unless it reproduces in 3 of 3 attempts' % CASE_LIMIT,
                        'data sets compared by canonical re-encoding (explicit VR little endian) with pydicom']
